@@ -85,6 +85,9 @@ Model/Envelope.vos Model/Envelope.vok Model/Envelope.required_vos: Model/Envelop
 Model/Gates.vo Model/Gates.glob Model/Gates.v.beautified Model/Gates.required_vo: Model/Gates.v Base/Plan.vo Gen/Consts.vo
 Model/Gates.vio: Model/Gates.v Base/Plan.vio Gen/Consts.vio
 Model/Gates.vos Model/Gates.vok Model/Gates.required_vos: Model/Gates.v Base/Plan.vos Gen/Consts.vos
+Model/Hdd.vo Model/Hdd.glob Model/Hdd.v.beautified Model/Hdd.required_vo: Model/Hdd.v Base/Plan.vo Model/Chain.vo Model/Vmdk.vo
+Model/Hdd.vio: Model/Hdd.v Base/Plan.vio Model/Chain.vio Model/Vmdk.vio
+Model/Hdd.vos Model/Hdd.vok Model/Hdd.required_vos: Model/Hdd.v Base/Plan.vos Model/Chain.vos Model/Vmdk.vos
 Model/Hds.vo Model/Hds.glob Model/Hds.v.beautified Model/Hds.required_vo: Model/Hds.v Base/Plan.vo Base/Table.vo Gen/Consts.vo
 Model/Hds.vio: Model/Hds.v Base/Plan.vio Base/Table.vio Gen/Consts.vio
 Model/Hds.vos Model/Hds.vok Model/Hds.required_vos: Model/Hds.v Base/Plan.vos Base/Table.vos Gen/Consts.vos
@@ -193,6 +196,9 @@ Proofs/Envelope.vos Proofs/Envelope.vok Proofs/Envelope.required_vos: Proofs/Env
 Proofs/Gates.vo Proofs/Gates.glob Proofs/Gates.v.beautified Proofs/Gates.required_vo: Proofs/Gates.v Base/Plan.vo Model/Gates.vo Gen/Consts.vo Gen/Gates.vo
 Proofs/Gates.vio: Proofs/Gates.v Base/Plan.vio Model/Gates.vio Gen/Consts.vio Gen/Gates.vio
 Proofs/Gates.vos Proofs/Gates.vok Proofs/Gates.required_vos: Proofs/Gates.v Base/Plan.vos Model/Gates.vos Gen/Consts.vos Gen/Gates.vos
+Proofs/Hdd.vo Proofs/Hdd.glob Proofs/Hdd.v.beautified Proofs/Hdd.required_vo: Proofs/Hdd.v Base/Arith.vo Base/Plan.vo Model/Chain.vo Proofs/Chain.vo Model/Vmdk.vo Model/VmdkDesc.vo Proofs/Storage.vo Model/Hdd.vo
+Proofs/Hdd.vio: Proofs/Hdd.v Base/Arith.vio Base/Plan.vio Model/Chain.vio Proofs/Chain.vio Model/Vmdk.vio Model/VmdkDesc.vio Proofs/Storage.vio Model/Hdd.vio
+Proofs/Hdd.vos Proofs/Hdd.vok Proofs/Hdd.required_vos: Proofs/Hdd.v Base/Arith.vos Base/Plan.vos Model/Chain.vos Proofs/Chain.vos Model/Vmdk.vos Model/VmdkDesc.vos Proofs/Storage.vos Model/Hdd.vos
 Proofs/Hds.vo Proofs/Hds.glob Proofs/Hds.v.beautified Proofs/Hds.required_vo: Proofs/Hds.v Base/Arith.vo Base/Plan.vo Base/Table.vo Model/Hds.vo Proofs/BlockMapped.vo
 Proofs/Hds.vio: Proofs/Hds.v Base/Arith.vio Base/Plan.vio Base/Table.vio Model/Hds.vio Proofs/BlockMapped.vio
 Proofs/Hds.vos Proofs/Hds.vok Proofs/Hds.required_vos: Proofs/Hds.v Base/Arith.vos Base/Plan.vos Base/Table.vos Model/Hds.vos Proofs/BlockMapped.vos
@@ -319,21 +325,21 @@ Props/C04.vos Props/C04.vok Props/C04.required_vos: Props/C04.v Base/Plan.vos Ba
 Props/C05.vo Props/C05.glob Props/C05.v.beautified Props/C05.required_vo: Props/C05.v Base/Plan.vo Base/Table.vo Model/Vdi.vo Proofs/Vdi.vo
 Props/C05.vio: Props/C05.v Base/Plan.vio Base/Table.vio Model/Vdi.vio Proofs/Vdi.vio
 Props/C05.vos Props/C05.vok Props/C05.required_vos: Props/C05.v Base/Plan.vos Base/Table.vos Model/Vdi.vos Proofs/Vdi.vos
-Props/C06.vo Props/C06.glob Props/C06.v.beautified Props/C06.required_vo: Props/C06.v Base/Plan.vo Base/Table.vo Model/Hds.vo Proofs/Hds.vo
-Props/C06.vio: Props/C06.v Base/Plan.vio Base/Table.vio Model/Hds.vio Proofs/Hds.vio
-Props/C06.vos Props/C06.vok Props/C06.required_vos: Props/C06.v Base/Plan.vos Base/Table.vos Model/Hds.vos Proofs/Hds.vos
-Props/C07.vo Props/C07.glob Props/C07.v.beautified Props/C07.required_vo: Props/C07.v Model/Qcow2.vo Proofs/Qcow2.vo Spec/Qcow2.vo Base/Plan.vo Base/Table.vo Model/Chain.vo Proofs/Chain.vo Proofs/Layers.vo Model/Vdi.vo Proofs/Vdi.vo Model/Hds.vo Proofs/Hds.vo Model/Vhdx.vo Proofs/Vhdx.vo Proofs/VhdxPartial.vo Proofs/VhdxLayer.vo Model/OpenParent.vo Proofs/OpenParent.vo Model/Vmdk.vo Proofs/Vmdk.vo Proofs/VmdkLayer.vo
-Props/C07.vio: Props/C07.v Model/Qcow2.vio Proofs/Qcow2.vio Spec/Qcow2.vio Base/Plan.vio Base/Table.vio Model/Chain.vio Proofs/Chain.vio Proofs/Layers.vio Model/Vdi.vio Proofs/Vdi.vio Model/Hds.vio Proofs/Hds.vio Model/Vhdx.vio Proofs/Vhdx.vio Proofs/VhdxPartial.vio Proofs/VhdxLayer.vio Model/OpenParent.vio Proofs/OpenParent.vio Model/Vmdk.vio Proofs/Vmdk.vio Proofs/VmdkLayer.vio
-Props/C07.vos Props/C07.vok Props/C07.required_vos: Props/C07.v Model/Qcow2.vos Proofs/Qcow2.vos Spec/Qcow2.vos Base/Plan.vos Base/Table.vos Model/Chain.vos Proofs/Chain.vos Proofs/Layers.vos Model/Vdi.vos Proofs/Vdi.vos Model/Hds.vos Proofs/Hds.vos Model/Vhdx.vos Proofs/Vhdx.vos Proofs/VhdxPartial.vos Proofs/VhdxLayer.vos Model/OpenParent.vos Proofs/OpenParent.vos Model/Vmdk.vos Proofs/Vmdk.vos Proofs/VmdkLayer.vos
+Props/C06.vo Props/C06.glob Props/C06.v.beautified Props/C06.required_vo: Props/C06.v Base/Plan.vo Base/Table.vo Model/Hds.vo Proofs/Hds.vo Model/Chain.vo Proofs/Chain.vo Proofs/Layers.vo Proofs/Storage.vo Model/Hdd.vo Proofs/Hdd.vo
+Props/C06.vio: Props/C06.v Base/Plan.vio Base/Table.vio Model/Hds.vio Proofs/Hds.vio Model/Chain.vio Proofs/Chain.vio Proofs/Layers.vio Proofs/Storage.vio Model/Hdd.vio Proofs/Hdd.vio
+Props/C06.vos Props/C06.vok Props/C06.required_vos: Props/C06.v Base/Plan.vos Base/Table.vos Model/Hds.vos Proofs/Hds.vos Model/Chain.vos Proofs/Chain.vos Proofs/Layers.vos Proofs/Storage.vos Model/Hdd.vos Proofs/Hdd.vos
+Props/C07.vo Props/C07.glob Props/C07.v.beautified Props/C07.required_vo: Props/C07.v Model/Qcow2.vo Proofs/Qcow2.vo Spec/Qcow2.vo Base/Plan.vo Base/Table.vo Model/Chain.vo Proofs/Chain.vo Proofs/Layers.vo Model/Vdi.vo Proofs/Vdi.vo Model/Hds.vo Proofs/Hds.vo Model/Vhdx.vo Proofs/Vhdx.vo Proofs/VhdxPartial.vo Proofs/VhdxLayer.vo Model/OpenParent.vo Proofs/OpenParent.vo Model/Vmdk.vo Proofs/Vmdk.vo Proofs/VmdkLayer.vo Proofs/Storage.vo Model/Hdd.vo Proofs/Hdd.vo
+Props/C07.vio: Props/C07.v Model/Qcow2.vio Proofs/Qcow2.vio Spec/Qcow2.vio Base/Plan.vio Base/Table.vio Model/Chain.vio Proofs/Chain.vio Proofs/Layers.vio Model/Vdi.vio Proofs/Vdi.vio Model/Hds.vio Proofs/Hds.vio Model/Vhdx.vio Proofs/Vhdx.vio Proofs/VhdxPartial.vio Proofs/VhdxLayer.vio Model/OpenParent.vio Proofs/OpenParent.vio Model/Vmdk.vio Proofs/Vmdk.vio Proofs/VmdkLayer.vio Proofs/Storage.vio Model/Hdd.vio Proofs/Hdd.vio
+Props/C07.vos Props/C07.vok Props/C07.required_vos: Props/C07.v Model/Qcow2.vos Proofs/Qcow2.vos Spec/Qcow2.vos Base/Plan.vos Base/Table.vos Model/Chain.vos Proofs/Chain.vos Proofs/Layers.vos Model/Vdi.vos Proofs/Vdi.vos Model/Hds.vos Proofs/Hds.vos Model/Vhdx.vos Proofs/Vhdx.vos Proofs/VhdxPartial.vos Proofs/VhdxLayer.vos Model/OpenParent.vos Proofs/OpenParent.vos Model/Vmdk.vos Proofs/Vmdk.vos Proofs/VmdkLayer.vos Proofs/Storage.vos Model/Hdd.vos Proofs/Hdd.vos
 Props/C08.vo Props/C08.glob Props/C08.v.beautified Props/C08.required_vo: Props/C08.v Model/Qcow2.vo Proofs/Qcow2.vo Spec/Qcow2.vo Model/Vmdk.vo Proofs/Vmdk.vo Base/Plan.vo Base/Table.vo Model/AlignedStream.vo Proofs/AlignedStream.vo Model/Lru.vo Proofs/Lru.vo Proofs/StreamReaders.vo Model/AlignedStreamB.vo Proofs/AlignedStreamB.vo Proofs/StreamBytes.vo Model/Vhd.vo Proofs/Vhd.vo Model/Vdi.vo Proofs/Vdi.vo Model/Vhdx.vo Proofs/Vhdx.vo Model/Hds.vo Proofs/Hds.vo
 Props/C08.vio: Props/C08.v Model/Qcow2.vio Proofs/Qcow2.vio Spec/Qcow2.vio Model/Vmdk.vio Proofs/Vmdk.vio Base/Plan.vio Base/Table.vio Model/AlignedStream.vio Proofs/AlignedStream.vio Model/Lru.vio Proofs/Lru.vio Proofs/StreamReaders.vio Model/AlignedStreamB.vio Proofs/AlignedStreamB.vio Proofs/StreamBytes.vio Model/Vhd.vio Proofs/Vhd.vio Model/Vdi.vio Proofs/Vdi.vio Model/Vhdx.vio Proofs/Vhdx.vio Model/Hds.vio Proofs/Hds.vio
 Props/C08.vos Props/C08.vok Props/C08.required_vos: Props/C08.v Model/Qcow2.vos Proofs/Qcow2.vos Spec/Qcow2.vos Model/Vmdk.vos Proofs/Vmdk.vos Base/Plan.vos Base/Table.vos Model/AlignedStream.vos Proofs/AlignedStream.vos Model/Lru.vos Proofs/Lru.vos Proofs/StreamReaders.vos Model/AlignedStreamB.vos Proofs/AlignedStreamB.vos Proofs/StreamBytes.vos Model/Vhd.vos Proofs/Vhd.vos Model/Vdi.vos Proofs/Vdi.vos Model/Vhdx.vos Proofs/Vhdx.vos Model/Hds.vos Proofs/Hds.vos
 Props/C09.vo Props/C09.glob Props/C09.v.beautified Props/C09.required_vo: Props/C09.v Gen/Effects.vo Model/Effects.vo Proofs/Effects.vo
 Props/C09.vio: Props/C09.v Gen/Effects.vio Model/Effects.vio Proofs/Effects.vio
 Props/C09.vos Props/C09.vok Props/C09.required_vos: Props/C09.v Gen/Effects.vos Model/Effects.vos Proofs/Effects.vos
-Props/C10.vo Props/C10.glob Props/C10.v.beautified Props/C10.required_vo: Props/C10.v Base/Plan.vo Base/Table.vo Model/Vmdk.vo Model/VmdkDesc.vo Proofs/Vmdk.vo Proofs/VmdkDesc.vo Proofs/Storage.vo
-Props/C10.vio: Props/C10.v Base/Plan.vio Base/Table.vio Model/Vmdk.vio Model/VmdkDesc.vio Proofs/Vmdk.vio Proofs/VmdkDesc.vio Proofs/Storage.vio
-Props/C10.vos Props/C10.vok Props/C10.required_vos: Props/C10.v Base/Plan.vos Base/Table.vos Model/Vmdk.vos Model/VmdkDesc.vos Proofs/Vmdk.vos Proofs/VmdkDesc.vos Proofs/Storage.vos
+Props/C10.vo Props/C10.glob Props/C10.v.beautified Props/C10.required_vo: Props/C10.v Base/Plan.vo Base/Table.vo Model/Vmdk.vo Model/VmdkDesc.vo Proofs/Vmdk.vo Proofs/VmdkDesc.vo Proofs/Storage.vo Model/Chain.vo Proofs/Chain.vo Model/Hdd.vo Proofs/Hdd.vo
+Props/C10.vio: Props/C10.v Base/Plan.vio Base/Table.vio Model/Vmdk.vio Model/VmdkDesc.vio Proofs/Vmdk.vio Proofs/VmdkDesc.vio Proofs/Storage.vio Model/Chain.vio Proofs/Chain.vio Model/Hdd.vio Proofs/Hdd.vio
+Props/C10.vos Props/C10.vok Props/C10.required_vos: Props/C10.v Base/Plan.vos Base/Table.vos Model/Vmdk.vos Model/VmdkDesc.vos Proofs/Vmdk.vos Proofs/VmdkDesc.vos Proofs/Storage.vos Model/Chain.vos Proofs/Chain.vos Model/Hdd.vos Proofs/Hdd.vos
 Props/C11.vo Props/C11.glob Props/C11.v.beautified Props/C11.required_vo: Props/C11.v Model/Qcow2.vo Proofs/Qcow2.vo Model/Vmdk.vo Proofs/Vmdk.vo Base/Plan.vo Base/Table.vo Model/Vhd.vo Proofs/Vhd.vo Model/Vdi.vo Proofs/Vdi.vo Model/Vhdx.vo Proofs/Vhdx.vo Model/Hds.vo Proofs/Hds.vo Model/SnapChain.vo Proofs/SnapChain.vo Model/HyperV.vo Proofs/HyperV.vo
 Props/C11.vio: Props/C11.v Model/Qcow2.vio Proofs/Qcow2.vio Model/Vmdk.vio Proofs/Vmdk.vio Base/Plan.vio Base/Table.vio Model/Vhd.vio Proofs/Vhd.vio Model/Vdi.vio Proofs/Vdi.vio Model/Vhdx.vio Proofs/Vhdx.vio Model/Hds.vio Proofs/Hds.vio Model/SnapChain.vio Proofs/SnapChain.vio Model/HyperV.vio Proofs/HyperV.vio
 Props/C11.vos Props/C11.vok Props/C11.required_vos: Props/C11.v Model/Qcow2.vos Proofs/Qcow2.vos Model/Vmdk.vos Proofs/Vmdk.vos Base/Plan.vos Base/Table.vos Model/Vhd.vos Proofs/Vhd.vos Model/Vdi.vos Proofs/Vdi.vos Model/Vhdx.vos Proofs/Vhdx.vos Model/Hds.vos Proofs/Hds.vos Model/SnapChain.vos Proofs/SnapChain.vos Model/HyperV.vos Proofs/HyperV.vos
